@@ -27,3 +27,50 @@ def shardCount (cpus : Nat) : Nat := max (cpus / Gen.WRITE_BUFFER_WORKER_RATIO) 
 def workerCount (cpus : Nat) : Nat := min (max (max (cpus / Gen.WRITE_BUFFER_WORKER_RATIO) 1) 1) (shardCount cpus)
 
 end Feox.Proto.Shards
+
+/-! ### wake-up bookkeeping: a dropped `try_send` is harmless
+
+Each worker has a bounded request channel (`bounded(2)`).  The coordinator's tick and
+`trigger_flush` use `try_send`: when the channel is full the request is dropped.  A worker that
+takes a request off its channel drains *all* its shards.  `marked s` (ghost) = shard `s` was seen
+non-empty by a tick (or filled up) and has not been drained since. -/
+namespace Feox.Proto.Shards
+
+structure WB where
+  W : Nat
+  S : Nat
+  count : Nat → Nat          -- entries per shard
+  pending : Nat → Nat        -- requests in each worker's channel (capacity 2)
+  marked : Nat → Bool        -- ghost
+  retire : Bool := false     -- retirements pending (worker 0's business)
+  retireMarked : Bool := false
+
+inductive WEv
+  | enqueue (s : Nat)        -- an API call adds an entry to shard `s`
+  | queueRetirement          -- a generation is queued for retirement
+  | tick                     -- the periodic coordinator
+  | full (s : Nat)           -- `trigger_flush`: shard `s` is full
+  | process (w : Nat)        -- worker `w` takes one request and drains its shards (and, worker 0, the retirements)
+
+def trySend (p : Nat → Nat) (w : Nat) : Nat → Nat := fun j => if j = w then min 2 (p j + 1) else p j
+
+def wake (W : Nat) (p : Nat → Nat) (ws : List Nat) : Nat → Nat := ws.foldl trySend p
+
+def wstep (b : WB) : WEv → WB
+  | .enqueue s => { b with count := fun j => if j = s then b.count j + 1 else b.count j }
+  | .queueRetirement => { b with retire := true }
+  | .tick =>
+    { b with pending := wake b.W b.pending (wakeSet b.W b.S b.count b.retire)
+             marked := fun s => b.marked s || (decide (s < b.S) && decide (b.count s > 0))
+             retireMarked := b.retireMarked || b.retire }
+  | .full s =>
+    { b with pending := trySend b.pending (ownerOf b.W s), marked := fun j => b.marked j || (decide (j < b.S) && j == s) }
+  | .process w =>
+    if b.pending w = 0 then b
+    else { b with pending := fun j => if j = w then b.pending j - 1 else b.pending j
+                  count := fun s => if s % b.W = w then 0 else b.count s
+                  marked := fun s => if s % b.W = w then false else b.marked s
+                  retire := if w = 0 then false else b.retire
+                  retireMarked := if w = 0 then false else b.retireMarked }
+
+end Feox.Proto.Shards
